@@ -273,7 +273,7 @@ def namebound(run, fx):
             continue
         n += 1
         inst = 'name string read pointer @%s' % e.get('ln')
-        good, seen = None, []
+        good, seen, scaled = None, [], None
         for cond, pol in dom.edge_guards(fn, fn.block_of[e['i']]):
             for at, p in dom.atoms(fn, cond, pol):
                 for t, c in linear.lower_bounds(fn, at, p):
@@ -283,7 +283,16 @@ def namebound(run, fx):
                         rest = {k_: c_ for k_, c_ in t.items() if k_ != lim[0]}
                         extra = {k_: c_ for k_, c_ in rest.items() if k_ not in off}
                         if all(rest.get(k_) == -c_ for k_, c_ in off.items()) and len(extra) == 1 and list(extra.values()) == [-1] and c <= c0 * -1 + 0:
+                            xt = list(extra)[0]
+                            if '>>' in xt or '/' in xt:
+                                # the term next to the offset is the record's length SCALED DOWN (units, not bytes): the copy that follows reads twice as far
+                                scaled = (fn.render(fn.strip(at)), xt)
+                                continue
                             good = (fn.render(fn.strip(at)), list(extra)[0])
+        if scaled and not good:
+            run.violated('VALIDATOR', inst, fn.loc(e), 'NameTable::getName tests `%s`, where `%s` is the record length already divided down to UTF-16 units, against the BYTE length of the string '
+                         'storage: a record may stick out of the name table by half its length and is still accepted -- the copy loop reads past the table' % scaled)
+            continue
         if good:
             run.held('VALIDATOR', inst, fn.loc(e), 'dominated by `%s`: offset + %s <= m_nameDataLength on the untruncated sum' % good)
         else:
